@@ -307,6 +307,14 @@ M("c12-foreach-result-char", "C12", "dlist foreach keeps the visit result in a s
   (DL, "    struct cstl_dlist_node * c, * n;\n    int res = 0;\n\n    switch (dir) {", "    struct cstl_dlist_node * c, * n;\n    signed char res = 0;\n\n    switch (dir) {"))
 M("c03-find-accept-positive", "C03", "hash find accepts only positive visit results",
   (HS, "        if (hfp->visit == NULL || hfp->visit(e, hfp->p) != 0) {", "        if (hfp->visit == NULL || hfp->visit(e, hfp->p) > 0) {"))
+M("c03-element-offset-uint", "C03", "hash: node-to-element conversion narrows the offset to unsigned int",
+  (HS, "    return (void *)((uintptr_t)n - h->off);", "    return (void *)((uintptr_t)n - (unsigned int)h->off);"))
+M("c12-element-offset-int", "C12", "dlist: element-to-node conversion narrows the offset to int",
+  (DL, "    return (void *)((uintptr_t)e + l->off);", "    return (void *)((uintptr_t)e + (int)l->off);"))
+M("c13-element-offset-uint", "C13", "slist: node-to-element conversion narrows the offset to unsigned int",
+  (SL, "    return (void *)((uintptr_t)n - s->off);", "    return (void *)((uintptr_t)n - (unsigned int)s->off);"))
+M("c07-element-offset-int", "C07", "bintree (heap): node-to-element conversion narrows the offset to int",
+  (BT, "    return (void *)((uintptr_t)bn - bt->off);", "    return (void *)((uintptr_t)bn - (int)bt->off);"))
 # ----------------------------------------------------------------- C15
 M("c15-dlist-cb-before-unlink", "C15", "dlist clear calls back before unlinking",
   (DL, "    while (l->size > 0) {\n        clr(__cstl_dlist_erase(l, l->h.n), NULL);\n    }", "    while (l->size > 0) {\n        struct cstl_dlist_node * const n = l->h.n;\n        clr(__cstl_dlist_element(l, n), NULL);\n        __cstl_dlist_erase(l, n);\n    }"))
